@@ -94,7 +94,7 @@ def tlc_vars(w: dict) -> list[dict]:
                 gridpos.append(dims.index(gd) + 1 if gd in dims else 0)
         out.append({"name": v["name"], "kind": kind, "dims": dims, "shape": shape, "gridpos": gridpos,
                     "base": v.get("base", 0), "missing": list(v.get("missing", [])), "geometry": False,
-                    "dtype": v.get("dtype", "f8"), "late": bool(v.get("late", False))})
+                    "dtype": "m8" if v.get("dtype", "f8").startswith("m8") else v.get("dtype", "f8"), "late": bool(v.get("late", False))})
     return out
 
 
@@ -123,6 +123,11 @@ def proj_values(values) -> list[int]:
         out = [int(v) for v in flat.tolist()]
     elif arr.dtype.kind == "b":
         out = [int(v) for v in flat.tolist()]
+    elif arr.dtype.kind == "m":
+        # durations: whole hours (the tags are written as hours); NaT is the missing value
+        nat = numpy.isnat(flat)
+        ns = flat.astype("timedelta64[ns]").astype("int64")
+        out = [MISSING if bad else (int(v // 3600_000_000_000) if v % 3600_000_000_000 == 0 else BADINT) for v, bad in zip(ns.tolist(), nat.tolist())]
     else:
         out = [BADINT for _ in flat]
     return out
@@ -130,7 +135,7 @@ def proj_values(values) -> list[int]:
 
 def proj_array(name, da: xarray.DataArray) -> dict:
     return {"name": str(name), "dims": [str(d) for d in da.dims], "shape": [int(s) for s in da.shape],
-            "data": proj_values(da.values), "dtype": da.dtype.str.lstrip("<>=|")}
+            "data": proj_values(da.values), "dtype": "m8" if da.dtype.kind == "m" else da.dtype.str.lstrip("<>=|")}      # (durations: whatever the unit)
 
 
 def proj_dataset(ds: xarray.Dataset) -> list[dict]:
